@@ -20,7 +20,8 @@ func VP_C09_ws() {
 	vpThread("setup")
 	vpResetHandlers()
 	g := &Gateway{IdleTimeout: int(int32(vpU32("idle")))}
-	trA, trB := vpScript(5, 2), vpScript(5, 2)
+	// A errs right after the channel opened (its relay is mid-write), B after one DATA packet
+	trA, trB := vpScript(4, 2), vpScript(5, 2)
 	trA.yieldOnRead, trB.yieldOnRead = true, true
 	trA.stallWrites, trB.stallWrites = true, true
 	tA := &Tunnel{RDGId: "conn-A", User: vpUser(), RemoteAddr: "10.0.0.1:1"}
